@@ -222,6 +222,7 @@ def o_gate(F, X, rep, b, fn):
                     sw = (bb2, cond)
         rep.ob(rid, okc, fn, "conversion precedes the init reply", where=c.loc, how="dominates start", detail="" if okc else "a conversion at %s happens after (or beside) the init reply" % c.loc)
     opts = [c for c in b.calls if c.name == "cln_plugin::ConfiguredPlugin::option"]
+    after = b.reach_after([s.bb])
     for c in opts:
-        okc = b.dominates(c.bb, s.bb)
-        rep.ob(rid, okc, fn, "option read precedes the init reply", where=c.loc, how="dominates start", detail="" if okc else "an option is read after the init reply", nontrivial=False)
+        okc = c.bb not in after and c.bb in b.reach([0], removed_nodes=[s.bb])
+        rep.ob(rid, okc, fn, "option read precedes the init reply", where=c.loc, how="not reachable from start", detail="" if okc else "an option is read after the init reply", nontrivial=False)
